@@ -157,6 +157,11 @@ impl<'a> SectionsBuilder<'a> {
                 self.set_lines_range(para.line_range);
             }
             BulletList(list) => {
+                // a list without any content (only empty items) carries nothing; creating
+                // its node would leave the builder inserting the following blocks into it
+                if list.items.iter().all(|item| item.is_empty()) {
+                    return;
+                }
                 self.builder.bullet_list();
                 self.builder.set_insert(true);
                 let id = self.builder.id();
@@ -168,6 +173,9 @@ impl<'a> SectionsBuilder<'a> {
                 self.builder.set_id(id);
             }
             OrderedList(list) => {
+                if list.items.iter().all(|item| item.is_empty()) {
+                    return;
+                }
                 self.builder.ordered_list();
                 self.builder.set_insert(true);
                 let id = self.builder.id();
